@@ -38,6 +38,7 @@ type GenCfg struct {
 	PConflict    float64 // inject a captive dependency
 	PMissing     float64 // inject a missing required dependency
 	EagerFaults  bool    // allow faults in singleton constructors (Build then fails)
+	PBuildCancel float64 // a singleton constructor cancels the Build context
 	NoInitFaults bool
 }
 
@@ -316,6 +317,32 @@ func (g *Gen) RegSet(cfg GenCfg) []*Reg {
 		}
 	}
 
+	// a Build cancelled through its context while singletons are being created: a singleton that another
+	// singleton depends on cancels it (so that at least one singleton is still to be created afterwards)
+	if cfg.PBuildCancel > 0 && g.p(cfg.PBuildCancel) {
+		var cands []*regPlan
+		for _, pl := range plans {
+			if pl.reg.Life != Singleton || pl.reg.Form.Kind == "inst" || len(pl.reg.Script) > 0 {
+				continue
+			}
+			for _, other := range plans {
+				if other == pl || other.reg.Life != Singleton {
+					continue
+				}
+				for _, prm := range other.reg.Form.Params {
+					for _, o := range pl.outs {
+						if !prm.Skip && prm.Dep.Ty == o.id.ty && prm.Dep.Name == o.id.name && prm.Dep.Group == o.id.group && !prm.Dep.Opt {
+							cands = append(cands, pl)
+						}
+					}
+				}
+			}
+		}
+		if len(cands) > 0 {
+			cands[g.n(len(cands))].reg.Script = []int{OCancel}
+		}
+	}
+
 	// injected defects
 	if len(plans) >= 2 {
 		if g.p(cfg.PCycle) {
@@ -353,8 +380,12 @@ func (g *Gen) RegSet(cfg GenCfg) []*Reg {
 			if len(scoped) > 0 && len(long) > 0 {
 				o := scoped[g.n(len(scoped))]
 				a := long[g.n(len(long))]
-				a.reg.Form.Params = append(a.reg.Form.Params, Param{Dep: Dep{Ty: o.id.ty, Name: o.id.name, Group: o.id.group}})
-				if o.id.name != 0 || o.id.group != 0 {
+				dp := Dep{Ty: o.id.ty, Name: o.id.name, Group: o.id.group}
+				if o.id.group == 0 && g.p(0.4) {
+					dp.Opt = true // declared optional, but registered: still a dependency on a scoped service
+				}
+				a.reg.Form.Params = append(a.reg.Form.Params, Param{Dep: dp})
+				if o.id.name != 0 || o.id.group != 0 || dp.Opt {
 					a.reg.Form.InObj = true
 				}
 			}
@@ -390,7 +421,7 @@ func (g *Gen) RegSet(cfg GenCfg) []*Reg {
 
 func effectiveAllOk(reg *Reg) bool {
 	for i := range reg.Script {
-		if effectiveOutcome(reg, i) != OOk {
+		if effectiveOutcome(reg, i) != OOk || reg.Script[i] == OCancel {
 			return false
 		}
 	}
